@@ -357,7 +357,7 @@ def uncommitted_release(cx):
         cx.check(is_f(args[1], "LightReady.committed_entries"), "arg", "reduce_uncommitted_size is given exactly the committed entries being handed out (found %s)" % show(args[1]), c)
 
 
-@obligation("READY.advance_apply_order", ["C07"], floor=1, kind="order of a defining read",
+@obligation("READY.advance_apply_order", ["C07", "C09"], floor=1, kind="order of a defining read",
             why="advance() must report as applied only what was handed out before this call, not the entries of the LightReady it is about to return")
 def advance_apply_order(cx):
     from ..engine import value_read_before
@@ -373,3 +373,19 @@ def advance_apply_order(cx):
     aa = _call_blocks(adv, "RawNode::advance_append")
     ok = bool(aa) and all(g.dominated_by_block(c.at, lambda b: b in aa) for c in cs)
     cx.check(ok, "after-append", "advance() first advances the append state, then reports the apply progress")
+    # every other way RawNode reports apply progress: what was handed out so far, or what the application says
+    work = [(c, 1) for c in cx.prog.call_sites_of("Raft::commit_apply") if c.fn.crate == "raft" and (c.fn.impl_adt or "").endswith("RawNode")]
+    seen = set()
+    while work:
+        c, ai = work.pop()
+        if (c.fn.key, c.block) in seen:
+            continue
+        seen.add((c.fn.key, c.block))
+        a = call_args(cx, c)[ai]
+        if a[0] == "param" and c.fn.vis != "Public":
+            # a private forwarding wrapper: the obligation moves to its callers
+            for cc in callers_of(cx, c.fn):
+                work.append((cc, a[1] - 1))
+            continue
+        ok = is_f(a, "RawNode.commit_since_index") or a[0] == "param"
+        cx.check(ok, cx.site_key(c, "applied-source"), "RawNode reports as applied either commit_since_index (the last index handed out) or the index the application passed -- never the commit index itself (found %s)" % show(a)[:80], c)
